@@ -6803,3 +6803,156 @@ func ruleCronInflight(prop string) ruleFn {
 		}
 	}
 }
+
+// JITTER-NONNEG (C16): jitter never moves a job before its due time.
+func ruleJitterNonneg(w *World, r *Report) {
+	r.Rule("JITTER-NONNEG", "crolt adds Cron.Jitter() to the occurrence it computed (AT-UTC decides what it is added to): a job fires no earlier than its due time only if the jitter is never negative.  Jitter's result is a product of the random fraction [0,1) and MaxJitter; nothing is subtracted from it (no subtraction on the way from the random number to the result).  A jitter centred on zero stores half of all entries before their occurrence: they fire early, and the re-computed `next` of a job that fired early is the same occurrence — which then fires again", 1)
+	fn := w.Method("crolt", "Cron", "Jitter")
+	key := "fn=" + fname(fn)
+	isRand := func(v ssa.Value) bool {
+		c, ok := v.(*ssa.Call)
+		if !ok {
+			return false
+		}
+		o := calleeObj(c.Common())
+		return o != nil && o.Pkg() != nil && strings.HasPrefix(o.Pkg().Path(), "math/rand")
+	}
+	n := 0
+	bad := ""
+	allInstrs(fn, func(in ssa.Instruction) {
+		ret, ok := in.(*ssa.Return)
+		if !ok || len(ret.Results) == 0 {
+			return
+		}
+		v := resolveSpill(ret.Results[0])
+		if !dependsOn(v, isRand) {
+			return
+		}
+		n++
+		if dependsOn(v, func(x ssa.Value) bool {
+			b, ok := x.(*ssa.BinOp)
+			return ok && b.Op == token.SUB && (dependsOn(b.X, isRand) || dependsOn(b.Y, isRand))
+		}) {
+			bad = w.PosOf(in)
+		}
+		if dependsOn(v, func(x ssa.Value) bool {
+			u, ok := x.(*ssa.UnOp)
+			return ok && u.Op == token.SUB
+		}) {
+			bad = w.PosOf(in)
+		}
+	})
+	switch {
+	case n == 0:
+		r.exempt("JITTER-NONNEG", key, w.Pos(fn.Pos()), "Jitter's result does not derive from math/rand: shape not recognised, not decided")
+	case bad != "":
+		r.violation("JITTER-NONNEG", key, bad, "something is subtracted on the way from the random number to the jitter: the jitter can be negative, and a job whose entry is stored before its occurrence fires early (and again)")
+	default:
+		r.ok("JITTER-NONNEG", key, w.Pos(fn.Pos()), "the jitter is a non-negative fraction of MaxJitter")
+	}
+}
+
+// CROLT-STATUS (C15, C16): a refusal by the cron service is a refusal.
+func ruleCroltStatus(prop string) ruleFn {
+	return func(w *World, r *Report) {
+		r.Rule("CROLT-STATUS", "core.HTTPRequest.Do returns an error only when the exchange itself failed; a 4xx answer is a successful exchange.  crolt answers 400 to a schedule it does not understand (`!TIME` one-shots, `?props` suffixes) and to a job that exists.  Therefore in CroltSimple.Schedule (through which every scheduled rule of a system with the persistent cron is registered) a non-nil error return is control-dependent on the Status of the answer: otherwise AddRule reports success for a rule that is not, and will never be, scheduled", 1)
+		nt := w.TryNamed("cron", "CroltSimple")
+		if nt == nil {
+			r.exempt("CROLT-STATUS", "type=cron.CroltSimple", "", "type not found: not decided")
+			return
+		}
+		fn := w.TryMethod("cron", "CroltSimple", "Schedule")
+		if fn == nil {
+			r.exempt("CROLT-STATUS", "fn=cron.CroltSimple.Schedule", "", "method not found: not decided")
+			return
+		}
+		key := "fn=" + fname(fn)
+		var dos []*ssa.Call
+		allInstrs(fn, func(in ssa.Instruction) {
+			if c, ok := in.(*ssa.Call); ok {
+				if o := calleeObj(c.Common()); o != nil && isMethodOf(o, modPath+"/core", "HTTPRequest", "Do") {
+					dos = append(dos, c)
+				}
+			}
+		})
+		if len(dos) == 0 {
+			r.exempt("CROLT-STATUS", key, w.Pos(fn.Pos()), "Schedule makes no HTTP request: shape not recognised, not decided")
+			return
+		}
+		isStatus := func(v ssa.Value) bool {
+			n, f, base, ok := loadedField(v)
+			if !ok || f != "Status" || n == nil {
+				return false
+			}
+			_ = base
+			return true
+		}
+		refusal := false
+		allInstrs(fn, func(in ssa.Instruction) {
+			if _, ok := in.(*ssa.Return); ok && !isSuccessReturnPS(in) && controlDependsOn(fn, in, isStatus) {
+				refusal = true
+			}
+		})
+		if refusal {
+			r.ok("CROLT-STATUS", key, w.PosOf(dos[0]), "an answer that is not a 2xx is an error")
+		} else {
+			r.violation("CROLT-STATUS", key, w.PosOf(dos[0]), "the status of the cron service's answer is never looked at: a refused job is reported as scheduled")
+		}
+	}
+}
+
+// BRK-INTERVAL (C20, C13): an interval too short to be divided into ticks is refused.
+func ruleBrkInterval(prop string) ruleFn {
+	return func(w *World, r *Report) {
+		r.Rule("BRK-INTERVAL", "OutboundBreaker divides by the tick length (interval / ticks, in whole nanoseconds) on every call.  The function that sets `interval` (init, reached from NewOutboundBreaker and Adjust) refuses an interval for which that length is zero: an error return is control-dependent on a comparison that involves the interval parameter.  Otherwise NewOutboundBreaker(limit, 10) succeeds and the first Do, Status or Summary panics (integer divide by zero) while it holds the breaker's mutex", 1)
+		const ob = "core.OutboundBreaker"
+		n := 0
+		for _, fn := range w.Funcs {
+			if w.RelPkg(fn) != "core" || isTestFile(w, fn) {
+				continue
+			}
+			var store ssa.Instruction
+			var src ssa.Value
+			allInstrs(fn, func(in ssa.Instruction) {
+				if st, ok := storesToField(in, ob, "interval"); ok {
+					if p, isP := st.Val.(*ssa.Parameter); isP {
+						store, src = in, p
+					}
+				}
+			})
+			if store == nil {
+				continue
+			}
+			n++
+			key := "fn=" + fname(fn)
+			refuses := false
+			allInstrs(fn, func(in ssa.Instruction) {
+				if _, ok := in.(*ssa.Return); !ok || isSuccessReturnPS(in) {
+					return
+				}
+				if controlDependsOn(fn, in, func(v ssa.Value) bool {
+					b, ok := v.(*ssa.BinOp)
+					if !ok {
+						return false
+					}
+					switch b.Op {
+					case token.LSS, token.LEQ, token.GTR, token.GEQ, token.EQL:
+					default:
+						return false
+					}
+					return dependsOn(b.X, func(x ssa.Value) bool { return x == src }) || dependsOn(b.Y, func(x ssa.Value) bool { return x == src })
+				}) {
+					refuses = true
+				}
+			})
+			if refuses {
+				r.ok("BRK-INTERVAL", key, w.PosOf(store), "an interval that cannot be divided into ticks is refused")
+			} else {
+				r.violation("BRK-INTERVAL", key, w.PosOf(store), "any interval is accepted: below one nanosecond per tick the tick length is zero and every later call divides by it")
+			}
+		}
+		if n == 0 {
+			r.exempt("BRK-INTERVAL", "field="+ob+".interval", "", "no function stores a parameter into OutboundBreaker.interval: shape not recognised, not decided")
+		}
+	}
+}
